@@ -68,12 +68,15 @@ func drawCase(t *rapid.T) Case {
 	c.Challenge = uint64(rapid.IntRange(1, 50).Draw(t, "challenge"))
 	c.Ser = rapid.SampledFrom([]string{"", "native", "protobuf"}).Draw(t, "ser")
 	ns := rapid.IntRange(0, 12).Draw(t, "nsteps")
-	subOpen := false
+	subOpen, subFinal := false, false
 	for i := 0; i < ns; i++ {
 		var s Step
 		kinds := []string{"pay", "pay", "pay", "subopen"}
-		if subOpen {
-			kinds = []string{"pay", "pay", "subpay", "subpay", "subclose"}
+		if subOpen && !subFinal {
+			kinds = []string{"pay", "pay", "subpay", "subpay", "subclose", "subfinal"}
+		} else if subOpen {
+			// the sub-channel is final but not settled yet: the parent goes on meanwhile
+			kinds = []string{"pay", "pay", "subsettle"}
 		}
 		s.Kind = rapid.SampledFrom(kinds).Draw(t, "kind")
 		s.By = rapid.IntRange(0, 1).Draw(t, "by")
@@ -83,12 +86,14 @@ func drawCase(t *rapid.T) Case {
 		switch s.Kind {
 		case "subopen":
 			for a := 0; a < na; a++ {
-				s.Bals = append(s.Bals, [2]uint64{uint64(rapid.IntRange(0, 40).Draw(t, "subA")), uint64(rapid.IntRange(0, 40).Draw(t, "subB"))})
+				s.Bals = append(s.Bals, [2]uint64{uint64(rapid.IntRange(0, 15).Draw(t, "subA")), uint64(rapid.IntRange(0, 15).Draw(t, "subB"))})
 			}
 			s.Accept = true
 			subOpen = true // may still fail (insufficient funds); the runner tracks the truth
-		case "subclose":
-			subOpen = false
+		case "subclose", "subsettle":
+			subOpen, subFinal = false, false
+		case "subfinal":
+			subFinal = true
 		}
 		c.Steps = append(c.Steps, s)
 	}
@@ -211,13 +216,14 @@ func runCase(c Case) *h.Outcome {
 		}
 	}
 	balanceChanging, rejected, subUsed := 0, 0, false
+	subFinalised := false
 	var subID channel.ID
 	for si, s := range c.Steps {
 		switch s.Kind {
 		case "pay", "subpay":
 			chs := pr.Ch
 			if s.Kind == "subpay" {
-				if pr.Sub[0] == nil {
+				if pr.Sub[0] == nil || subFinalised {
 					continue
 				}
 				chs = pr.Sub
@@ -285,13 +291,31 @@ func runCase(c Case) *h.Outcome {
 			subUsed = true
 			subID = pr.Sub[0].ID()
 		case "subclose":
-			if pr.Sub[0] == nil {
+			if pr.Sub[0] == nil || subFinalised {
 				continue
 			}
 			if err := pr.CloseSub(); err != nil {
 				return fail("subclose-failed", "step %d: honest sub-channel settlement failed: %v", si, err)
 			}
 			o.Class("sub-closed")
+		case "subfinal":
+			if pr.Sub[0] == nil || subFinalised {
+				continue
+			}
+			if err := pr.FinalizeSub(); err != nil {
+				return fail("subfinal-failed", "step %d: honest final sub-channel update failed: %v", si, err)
+			}
+			subFinalised = true
+		case "subsettle":
+			if pr.Sub[0] == nil || !subFinalised {
+				continue
+			}
+			if err := pr.SettleSub(); err != nil {
+				return fail("subsettle-failed", "step %d: honest settlement of the finalised sub-channel failed: %v", si, err)
+			}
+			subFinalised = false
+			o.Class("sub-closed")
+			o.Class("sub-settled-after-parent-activity")
 		}
 	}
 	subOpenAtEnd := pr.Sub[0] != nil
@@ -379,7 +403,7 @@ func runCase(c Case) *h.Outcome {
 	return o
 }
 
-const rule = "scenario programs for two honest clients (real client.Client, real local.Watcher) over the strict reference ledger with a logical clock and the scripted FIFO bus: 1-3 assets, initial balances, optional funding agreement with another split, challenge duration, proposer, serializer (none/native/protobuf), 0-12 steps {payment either way incl. amounts above the balance (must fail locally), accept/reject decision, open sub-channel (incl. more funds than the parent holds: must fail), payment inside the sub-channel, finalise+close sub-channel}, last state final or not, settle order (A first / B first / concurrent), secondary flags. Oracle: every honest operation returns nil; funding debits exactly the agreed amounts; after both Settle calls each party's account grew by exactly its balance in the last state enabled by BOTH recording persisters (+ its balance in the last agreed state of a still-open sub-channel); holdings are zero; per-asset conservation after every ledger call; the ledger never had to refuse a call (signatures, versions, sub-channel tree, unregistered non-final withdraw). non-trivial = at least one accepted balance-changing update and one of {rejected update, dispute path (register + timeout), sub-channel, several assets}"
+const rule = "scenario programs for two honest clients (real client.Client, real local.Watcher) over the strict reference ledger with a logical clock and the scripted FIFO bus: 1-3 assets, initial balances, optional funding agreement with another split, challenge duration, proposer, serializer (none/native/protobuf), 0-12 steps {payment either way incl. amounts above the balance (must fail locally), accept/reject decision, open sub-channel (incl. more funds than the parent holds: must fail), payment inside the sub-channel, finalise+close sub-channel, finalise the sub-channel and settle it only after further parent activity}, last state final or not, settle order (A first / B first / concurrent), secondary flags. Oracle: every honest operation returns nil; funding debits exactly the agreed amounts; after both Settle calls each party's account grew by exactly its balance in the last state enabled by BOTH recording persisters (+ its balance in the last agreed state of a still-open sub-channel); holdings are zero; per-asset conservation after every ledger call; the ledger never had to refuse a call (signatures, versions, sub-channel tree, unregistered non-final withdraw). non-trivial = at least one accepted balance-changing update and one of {rejected update, dispute path (register + timeout), sub-channel, several assets}"
 
 func TestSettlement(t *testing.T) {
 	rec := h.Begin("C03", "")
